@@ -749,21 +749,28 @@ def racing_factory(params):
 
 QUICK_B = {(s, p): 1 for s in STARTS for p in PROGS
            if (p in SERVER_PROGS) == False}
-QUICK_B.update({('play', p): 2 for p in SERVER_PROGS})
-QUICK_B.update({(s, 'connect||disc'): 2 for s in ('fresh', 'play')})
-QUICK_B.update({(s, 'connect||connect'): 2 for s in ('fresh', 'disconnected')})
+QUICK_B.update({('play', p): 1 for p in SERVER_PROGS})
+QUICK_B[('play', 'ka99||disc,status')] = 2
+QUICK_B.update({('play', 'connect||disc'): 2, ('fresh', 'connect||connect'): 2})
 
 
 def run(ctx):
+    import time
+    t0 = time.time()
+
+    def lap(name):
+        ctx.extra['seconds_' + name] = round(time.time() - t0, 1)
     # every history up to a depth, no abstraction trusted
-    RACY_DEPTH[0] = 12 if ctx.thorough else 7
+    RACY_DEPTH[0] = 12 if ctx.thorough else 6
     bfs(ctx, 5 if ctx.thorough else 4, dedup=False, label='all_histories')
     if ctx.violations:
         return
+    lap('all_histories')
     # merged on the abstract state: deeper, towards a fixpoint
     bfs(ctx, 40 if ctx.thorough else 12, dedup=True, label='merged')
     if ctx.violations:
         return
+    lap('merged_bfs')
     ex = explore.Explorer(table_bits=25 if ctx.thorough else 23)
     try:
         # (c) histories in which several networking threads are runnable at
@@ -778,6 +785,7 @@ def run(ctx):
                              label='racing %s ' % ','.join(history),
                              fresh_table=ctx.thorough)
             ctx.cls('racing histories explored')
+        lap('racing')
         for (start, prog), b in sorted(QUICK_B.items()):
             if ctx.thorough:
                 b += 1
@@ -788,6 +796,7 @@ def run(ctx):
                 'preemption_bound': b, 'complete_executions': res.execs,
                 'cut_at_visited_state': res.pruned,
                 'distinct_outcomes': len(res.outcomes)}
+            lap('sched %s %s' % (start, prog))
     finally:
         ex.close()
     ctx.sample({'history': ['connect', 'settle', 'ka99', 'disc', 'connect'],
